@@ -198,7 +198,7 @@ def impl(case):
                 es, ns, qe, qn, shape2d, proj, grid = a[:7]
                 f = None if proj is None else PROJS[proj[0]](proj[1])
                 dc = (np.array(es), np.array(ns))
-                arr = vd.convexhull_mask(dc, coordinates=(C.mkarr(qe, shape2d, case["op"]), C.mkarr(qn, shape2d, case["op"])), projection=f)
+                arr = vd.convexhull_mask(dc, coordinates=(C.mkarr(qe, shape2d, "qe:" + case["op"]), C.mkarr(qn, shape2d, "qn:" + case["op"])), projection=f)
                 if list(arr.shape) != list(shape2d):
                     raise RuntimeError("wrong output shape")
                 if grid is not None:
